@@ -117,3 +117,30 @@ Print Assumptions C01_parse_depth.
 Theorem C01_parse_depth_example : parse_depth_example_ok = true.
 Proof. exact parse_depth_example. Qed.
 Print Assumptions C01_parse_depth_example.
+
+(* ---- the file / descriptor entry point (json_util.c: json_object_from_fd_ex, from_fd, from_file) ----
+   parse side = TokFd.from_fd_parse: the bytes read, explicit length; when that call asks for more
+   input the terminating NUL behind the contents is passed on (fix f641378: before it a file holding
+   just 42, -1.5e3 or true was rejected with "continue").  Every valid text, with or without
+   trailing blanks, yields the denoted value.  (Reading the bytes off the descriptor is C20.) *)
+From JC Require Import TokFd TokFdValid.
+
+Theorem C01_from_fd_valid : forall sb D s lead trail t,
+  wf_stx s -> all_ws lead = true -> all_ws trail = true ->
+  Z.of_nat (nest s) < D -> ints_in_range s = true -> names_nul_free s = true ->
+  tok_new D false false false = Some t ->
+  exists t', from_fd_parse sb t (render_doc lead s trail) = PR t' (Some (value sb s)) /\ err t' = TE_success.
+Proof. exact from_fd_valid. Qed.
+Print Assumptions C01_from_fd_valid.
+
+(* for ANY text without NUL bytes the two calls return the value the NUL-terminated parse returns *)
+Theorem C01_from_fd_of_cstr : forall sb t bytes tc v,
+  TokReset.wf_tok t -> is_fin (st t) = false -> validate_utf8 t = false -> Forall (fun b => b <> 0) bytes ->
+  parse_ex_cstr sb t bytes = PR tc (Some v) ->
+  exists t', from_fd_parse sb t bytes = PR t' (Some v) /\ err t' = TE_success.
+Proof. exact from_fd_of_cstr. Qed.
+Print Assumptions C01_from_fd_of_cstr.
+
+Theorem C01_from_fd_examples : fd_examples_ok = true.
+Proof. exact fd_examples. Qed.
+Print Assumptions C01_from_fd_examples.
